@@ -1179,6 +1179,12 @@ class Unit:
                     continue
                 if r.startswith('R32('):
                     continue
+                if r == 'R35':
+                    # `VEC.drain(..)` (the whole vector, by value, in order) -> `v_drain_all(&mut VEC)`: a stand-in iterator
+                    # that yields exactly the elements the vector held, in order (prelude/drain.rs)
+                    text, n35 = re.subn(r'(\w+)\.drain\(\.\.\)', r'v_drain_all(&mut \1)', text)
+                    self.log.add('R35(VEC.drain(..) -> v_drain_all(&mut VEC))', site, n35)
+                    continue
                 m33 = re.match(r'R33\((\w+)\)$', r)
                 if m33:
                     # `fn f(.., mut x: T, ..) { B }` -> `fn f(.., x_entry: T, ..) { let mut x = x_entry; B }`: the same function;
